@@ -342,7 +342,7 @@ def build(run):
     return binp
 
 
-def run_stream(run, binp, name, which, histories, clauses, rule, shard=250):
+def run_stream(run, binp, name, which, histories, clauses, rule, shard=250, judge=None):
     cases = [dict(h, i=k) if isinstance(h, dict) else {"i": k, "ops": h} for k, h in enumerate(histories)]
     res, err = vlib.run_overlay_test(binp, "TestVerifBroker", cases, run.rundir, tag=name)
     if err or res is None or len(res) != len(cases):
@@ -353,7 +353,7 @@ def run_stream(run, binp, name, which, histories, clauses, rule, shard=250):
     for c in cases:
         for o in c["ops"]:
             nops[o["op"]] = nops.get(o["op"], 0) + 1
-    vlib.judge_stream(run, name, IMPORTS, "case", cases, res, term, cl, (0,), rule, judge="judge_c%02d" % which, shard=shard,
+    vlib.judge_stream(run, name, IMPORTS, "case", cases, res, term, cl, (0,), rule, judge=judge or ("judge_c%02d" % which), shard=shard,
                       key_fn=lambda c: json.dumps(c["ops"], sort_keys=True),
                       dist_extra={"operations": nops, "history_lengths": {"min": min(len(c["ops"]) for c in cases), "max": max(len(c["ops"]) for c in cases)}})
     if any(c.get("ochcap") for c in cases):
